@@ -613,6 +613,44 @@ impl<'tcx> Cx<'tcx> {
                         self.body_rec(did, body, None, out);
                     }
                 }
+                // ... and its evaluated value, field by field, when every field is a scalar (covers initialisers
+                // that go through a `const fn`)
+                if let ty::Adt(adt, _) = t.kind() {
+                    if let Ok(val) = tcx.const_eval_poly(did) {
+                        if let Some(d) = tcx.try_destructure_mir_constant_for_user_output(val, t) {
+                            let vi = d.variant.map(|v| v.as_u32()).unwrap_or(0);
+                            let vd = adt.variant(rustc_abi::VariantIdx::from_u32(vi));
+                            let mut fs: Vec<String> = Vec::new();
+                            let mut all = true;
+                            for (i, (fv, fty)) in d.fields.iter().enumerate() {
+                                let name = vd.fields.iter().nth(i).map(|f| f.name.to_string()).unwrap_or_default();
+                                match fv.try_to_scalar_int() {
+                                    Some(sc) if fty.is_integral() || fty.is_bool() || fty.is_char() => {
+                                        let bits = sc.to_bits(sc.size());
+                                        fs.push(format!(
+                                            "{{\"name\":{},\"ty\":{},\"v\":{}}}",
+                                            esc(&name),
+                                            esc(&self.ty_s(*fty)),
+                                            esc(&bits.to_string())
+                                        ));
+                                    }
+                                    _ => all = false,
+                                }
+                            }
+                            if all {
+                                let _ = write!(
+                                    out,
+                                    "{{\"rec\":\"constval\",\"path\":{},\"adt\":{},\"var\":{},\"vi\":{},\"fields\":[{}]}}\n",
+                                    esc(&self.path(did)),
+                                    esc(&self.path(adt.did())),
+                                    esc(&vd.name.to_string()),
+                                    vi,
+                                    fs.join(",")
+                                );
+                            }
+                        }
+                    }
+                }
             }
             return;
         }
